@@ -1128,9 +1128,6 @@ Definition for_slice_iter (var : string) (body : option stmt) (l off len i : nat
   let '(cancelled, s0) := poll s in
   if cancelled then Err (ESentinel SInterruptS) (set_rv s0 rv_nil) else
   let iv := deref (r_st s0) (Place l (off + i)) in
-  (* runForSliceStmt dereferences an element that is a pointer; error values are pointers, and what the loop
-     variable then holds (a struct that is no longer an error) has no counterpart here *)
-  if match iv with VErr _ => true | _ => false end then unsupported "for-in over a list holding an error value (pointer element dereferenced)" else
   let st1 := env_define (r_st s0) (r_env s0) var (match iv with VNil => Place l (off + i) | _ => Imm iv end) in
   match rec (CStmt body) (set_st s0 st1) with
   | Abort a => Abort a
